@@ -73,7 +73,9 @@ namespace
         virtual Status put(uint8_t c) = 0;
         virtual Bytes delivered() = 0; // content of the completed packet (valid right after NEWPACKAGE)
         virtual size_t stored() = 0;
-        virtual void restart() = 0; // receiver restart (re-init on the same buffer)
+        // receiver restart by its owner: how 1 = init() on the same buffer, 2 = setbuf() on the same buffer,
+        // 3 = setbuf() onto a fresh buffer of the same capacity (the old block is freed: a stale pointer trips ASan)
+        virtual void restart(int how) = 0;
     };
     struct RxCfg : Rx
     {
@@ -103,7 +105,17 @@ namespace
             return Bytes((const uint8_t *)s, (const uint8_t *)s + n);
         }
         size_t stored() override { return r.size(); }
-        void restart() override { r.init(buf.get(), cap); }
+        void restart(int how) override
+        {
+            if (how == 1) r.init(buf.get(), cap);
+            else if (how == 2) r.setbuf(buf.get(), cap);
+            else
+            {
+                std::unique_ptr<uint8_t[]> fresh(new uint8_t[cap]);
+                r.setbuf(fresh.get(), cap);
+                buf.swap(fresh);
+            }
+        }
     };
     struct RxLegacy : Rx
     {
@@ -136,8 +148,10 @@ namespace
             return Bytes((const uint8_t *)s, (const uint8_t *)s + n - 1);
         }
         size_t stored() override { return (size_t)sline_size(&r.line); }
-        void restart() override
+        void restart(int how) override
         {
+            std::unique_ptr<uint8_t[]> fresh;
+            if (how == 3) { fresh.reset(new uint8_t[cap]); buf.swap(fresh); }
             memset(&r, 0, sizeof r);
             gstuff_autorecv_setbuf_v1(&r, buf.get(), cap);
         }
@@ -205,9 +219,9 @@ namespace
     struct Elem
     {
         uint8_t b;
-        int magic;    // 1: replaced at delivery time by the byte that completes the reference CRC (accidental match probe)
+        int magic;    // 1: replaced at delivery time by the byte that completes the reference CRC (accidental match probe); 2: see run_stream
         int frame;    // index of the well-formed frame this byte belongs to, -1 otherwise
-        bool restart; // receiver restart happens before this byte
+        int restart;  // receiver restart happens before this byte (0 none, else the kind: Rx::restart)
     };
     struct FrameMeta
     {
@@ -284,15 +298,22 @@ namespace
             const Elem &e = stream[j];
             if (e.restart)
             {
-                rx->restart();
+                rx->restart(e.restart);
                 ref.anchored = false; // nothing before a restart counts as "since the last start marker"
-                fault("receiver_restart");
+                fault(e.restart == 1 ? "receiver_restart" : e.restart == 2 ? "receiver_restart_setbuf" : "receiver_restart_new_buffer");
             }
             uint8_t b = e.b;
             if (e.magic)
             {
                 // the byte that makes the running CRC of the reference's unescaped bytes come out as 0
                 b = ref_crc8(ref.U);
+                if (e.magic == 2)
+                {
+                    // ... under the hypothesis that the receiver decoded the preceding (invalid) escape pair to e.b
+                    Bytes hyp = ref.U;
+                    hyp.push_back(e.b);
+                    b = ref_crc8(hyp);
+                }
                 if (b == a.START || b == a.STOP || b == a.STUB) b ^= 0x01; // keep it an ordinary data byte
                 probe("crc_completing_byte");
             }
@@ -309,7 +330,7 @@ namespace
             // informational statuses (restart, garbage, codes this harness does not know) are not deliveries and not errors;
             // only an error status on fault-free traffic contradicts "exactly one completed packet per frame"
             if (st == ST_OTHER) probe("undocumented_status");
-            if (fault_free && (st == ST_CRCERR || st == ST_OVERFLOW || st == ST_STUFFERR))
+            if (fault_free && (long)j > last_fault_pos && (st == ST_CRCERR || st == ST_OVERFLOW || st == ST_STUFFERR))
                 violate("C04/status", "%s: error status %s at byte %zu of fault-free traffic", VAR_NAME[variant], ST_NAME[st], j);
             if (e.frame >= 0 && st == ST_OVERFLOW) overflow_in_frame[e.frame] = 1;
             if (st == ST_NEWPKG)
@@ -420,10 +441,10 @@ namespace
             break;
         case F_FLIP: es[off].b ^= (uint8_t)(mod(val, 255) + 1); break;
         case F_REPLACE: es[off].b = special_byte(a, val); break;
-        case F_INSERT: es.insert(es.begin() + off, Elem{special_byte(a, val), 0, -1, false}); break;
+        case F_INSERT: es.insert(es.begin() + off, Elem{special_byte(a, val), 0, -1, 0}); break;
         case F_DUP: es.insert(es.begin() + off, es[off]); break;
-        case F_RESTART: es[off].restart = true; break;
-        case F_MAGIC: es.insert(es.begin() + off, Elem{0, 1, -1, false}); break;
+        case F_RESTART: es[off].restart = 1 + (int)mod(val, 3); break;
+        case F_MAGIC: es.insert(es.begin() + off, Elem{0, 1, -1, 0}); break;
         }
         for (auto &e : es) e.frame = -1; // a faulted frame is no longer a well-formed frame
         long pos = base + (long)std::min(off + cnt, es.size());
@@ -492,7 +513,10 @@ namespace
                 else cap = (int)r.range(2, 6);
             }
             if (cap < 2) cap = 2;
-            p.cfg = {variant, enc, cap};
+            // cfg[3], cfg[4] (fault-free world): the receiver object had an earlier session that ended in the middle of a frame
+            // (cfg[4] selects where) and was then re-initialised by its owner in way cfg[3] (0: no earlier session); cfg[3] = 4: the
+            // earlier traffic was one complete frame too long for the buffer, and the receiver was not re-initialised
+            p.cfg = {variant, enc, cap, !faults && r.chance(1, 4) ? (int64_t)r.range(1, 4) : 0, (int64_t)r.below(64)};
             bool sweep = faults && r.chance(1, 3);
             if (faults && r.chance(1, 3))
             {
@@ -646,23 +670,44 @@ namespace
             if (!faults) cap = std::max(cap, (int)maxpayload + 2); // C04: a large enough buffer
 
             LinkStats ls;
+            int earlier = faults ? 0 : (int)mod(p.c(3, 0), 5);
             auto build_and_run = [&](long sweep_off) {
                 std::vector<Elem> stream;
                 std::vector<FrameMeta> fr = frames;
                 long last_fault = -1;
+                if (earlier == 4)
+                {
+                    // a complete frame whose payload alone fills the buffer: reported as overflow, then the line goes on
+                    Bytes pl;
+                    for (int i = 0; i < cap; i++) pl.push_back((uint8_t)('a' + (i + (int)mod(p.c(4, 0), 26)) % 26));
+                    for (uint8_t b : ref_encode(a, pl)) stream.push_back(Elem{b, 0, -1, 0});
+                    last_fault = (long)stream.size() - 1;
+                    probe("receiver_reused_after_overflow");
+                }
+                else if (earlier)
+                {
+                    // the earlier session: a proper prefix of a well-formed frame (at least its start marker and one more byte)
+                    // (its payload is no longer than the first frame's, so it fits the buffer)
+                    Bytes pl = frames[0].payload;
+                    std::reverse(pl.begin(), pl.end());
+                    Bytes fe = ref_encode(a, pl);
+                    size_t k = 2 + (size_t)mod(p.c(4, 0), (int64_t)fe.size() - 2); // 2 .. size-1: never the closing marker
+                    for (size_t i = 0; i < k; i++) stream.push_back(Elem{fe[i], 0, -1, 0});
+                    probe("receiver_reinitialised_mid_frame");
+                }
                 for (auto &pc : pieces)
                 {
                     std::vector<Elem> es;
                     if (pc.frame == -2)
                     {
                         const Op &marks = pc.faults[0];
-                        for (size_t i = 0; i < pc.bytes.size(); i++) es.push_back(Elem{pc.bytes[i], (int)arg(marks, i + 1), -1, false});
+                        for (size_t i = 0; i < pc.bytes.size(); i++) es.push_back(Elem{pc.bytes[i], (int)arg(marks, i + 1), -1, 0});
                         last_fault = std::max(last_fault, (long)stream.size() + (long)es.size() - 1);
                         fault("noise_burst");
                     }
                     else
                     {
-                        for (uint8_t b : pc.bytes) es.push_back(Elem{b, 0, pc.frame, false});
+                        for (uint8_t b : pc.bytes) es.push_back(Elem{b, 0, pc.frame, 0});
                         for (auto &f : pc.faults)
                         {
                             size_t off = (size_t)mod(arg(f, 2), (int64_t)es.size());
@@ -684,6 +729,7 @@ namespace
                             fr[pc.frame].last = stream.size() + es.size() - 1;
                         }
                     }
+                    if (earlier && earlier != 4 && !es.empty() && stream.size() > 0 && &pc == &pieces[0]) es[0].restart = earlier;
                     stream.insert(stream.end(), es.begin(), es.end());
                 }
                 run_stream(variant, cap, stream, fr, last_fault, !faults, tr, ls);
@@ -789,7 +835,7 @@ namespace
                     for (int i = 0; i < L; i++, x /= 6)
                     {
                         int sy = sym[x % 6];
-                        stream.push_back(sy < 0 ? Elem{0, 1, -1, false} : Elem{(uint8_t)sy, 0, -1, false});
+                        stream.push_back(sy < 0 ? Elem{0, 1, -1, 0} : Elem{(uint8_t)sy, 0, -1, false});
                     }
                     try
                     {
@@ -844,6 +890,81 @@ namespace
             return res;
         }
     };
+
+    // ---------------------------------------------------------------- escape-code sweep (C05)
+    // one corrupted frame per value of the byte that follows the stuffing byte: START data.. STUB <every value 0..255>
+    // <byte completing the reference CRC> STOP, each followed by a well-formed frame. Only the alphabet's own escape
+    // codes may lead to a delivery; everything else must be dropped, and the next frame must come through.
+    struct EscapeSweepWorld : World
+    {
+        const char *name() const override { return "escape-code-sweep"; }
+        unsigned weight(Tier) const override { return 1; }
+        Plan generate(Rng &r, Tier) override
+        {
+            Plan p;
+            p.cfg = {(int64_t)r.below(VAR_N), (int64_t)r.range(6, 12), (int64_t)r.below(5)};
+            Op o = {OP_FRAME};
+            int n = (int)r.below(4);
+            for (int i = 0; i < n; i++) o.push_back((int64_t)('a' + r.below(26)));
+            p.ops.push_back(o);
+            return p;
+        }
+        std::string describe(const Plan &p) override { return std::string(VAR_NAME[mod(p.c(0), VAR_N)]) + " every value after the stuffing byte, " + plan_to_json(p); }
+        Result execute(const Plan &p, Trace &tr) override
+        {
+            Result res;
+            int variant = (int)mod(p.c(0), VAR_N);
+            const Alphabet &a = alpha_of(variant);
+            int cap = (int)mod(p.c(1) - 6, 10) + 6;
+            Bytes lead;
+            if (!p.ops.empty())
+                for (size_t i = 1; i < p.ops[0].size() && i <= 3; i++) lead.push_back((uint8_t)('a' + mod(p.ops[0][i], 26)));
+            LinkStats ls;
+            for (int code = 0; code < 256; code++)
+            {
+                // hypothesis (cfg[2]) about what a wrong receiver makes of the pair: nothing (0), or one of the special bytes / the code itself
+                int hypk = (int)mod(p.c(2, 0), 5);
+                const uint8_t hyps[5] = {0, a.START, a.STOP, a.STUB, (uint8_t)(code & 255)};
+                if (hypk == 2 && a.same()) hypk = 1;
+                std::vector<Elem> stream;
+                stream.push_back(Elem{a.START, 0, -1, 0});
+                for (uint8_t b : lead) stream.push_back(Elem{b, 0, -1, 0});
+                stream.push_back(Elem{a.STUB, 0, -1, 0});
+                stream.push_back(Elem{(uint8_t)code, 0, -1, 0});
+                stream.push_back(hypk == 0 ? Elem{0, 1, -1, 0} : Elem{hyps[hypk], 2, -1, 0});
+                stream.push_back(Elem{a.STOP, 0, -1, 0});
+                long last_fault = (long)stream.size() - 1;
+                std::vector<FrameMeta> fr;
+                for (int k = 0; k < 2; k++) // two frames: with start == stop the first one after a fault may be lost
+                {
+                    FrameMeta fm;
+                    fm.payload = {(uint8_t)'o', (uint8_t)('k' + k)};
+                    fm.intact = true;
+                    fm.first = stream.size();
+                    for (uint8_t b : ref_encode(a, fm.payload)) stream.push_back(Elem{b, 0, (int)fr.size(), 0});
+                    fm.last = stream.size() - 1;
+                    fr.push_back(fm);
+                }
+                try
+                {
+                    run_stream(variant, cap, stream, fr, last_fault, false, tr, ls);
+                }
+                catch (Violation &v)
+                {
+                    char t[8];
+                    snprintf(t, sizeof t, "%02x", code & 255);
+                    v.detail = std::string("[stuffing byte followed by ") + t + "] " + v.detail;
+                    throw;
+                }
+                fault("escape_code_replaced");
+            }
+            probe("escape_code_sweep");
+            res.steps = ls.bytes;
+            res.simtime = ls.bytes;
+            res.nontrivial = true;
+            return res;
+        }
+    };
 }
 
 int main(int argc, char **argv)
@@ -853,6 +974,8 @@ int main(int argc, char **argv)
     Harness h;
     h.property = LINK_FAULTS ? "C05" : "C04";
     h.worlds = {&w, &bw};
+    EscapeSweepWorld ew;
+    if (LINK_FAULTS) h.worlds.push_back(&ew);
     if (LINK_FAULTS)
         h.real = {"igris/protocols/gstuff.cpp (gstuff_autorecv with both alphabets)", "igris/protocols/gstuff_v1/autorecv.c",
                   "igris/datastruct/sline.h", "igris/util/crc.h (igris_strmcrc8 inside the receivers)"};
